@@ -181,10 +181,90 @@ theorem nodup_uniqueFirst (l : List β) : (uniqueFirst l).Nodup := by
     simp only [uniqueFirst, List.nodup_cons, List.mem_filter]
     exact ⟨by simp, ih.filter _⟩
 
+/-! #### the generated decision leaves, unfolded (a source edit that changes one of them
+     breaks the corresponding lemma and every theorem built on it) -/
+
+theorem selMatch_eq (k iv : Nat) : (Rsa.Gen.C11.selMatch k iv == 1) = (k == iv) := by
+  unfold Rsa.Gen.C11.selMatch
+  by_cases h : k = iv <;> simp [h]
+
+theorem avgMatch_eq (k iv : Nat) : (Rsa.Gen.C11.avgMatch k iv == 1) = (k == iv) := by
+  unfold Rsa.Gen.C11.avgMatch
+  by_cases h : k = iv <;> simp [h]
+
+theorem mergeIsSame_eq (n : Nat) : (Rsa.Gen.C11.mergeIsSame n == 1) = (n == 1) := by
+  unfold Rsa.Gen.C11.mergeIsSame
+  by_cases h : n = 1 <;> simp [h]
+
+theorem fromDfIsConst_eq (n : Nat) : (Rsa.Gen.C11.fromDfIsConst n == 1) = (n == 1) := by
+  unfold Rsa.Gen.C11.fromDfIsConst
+  by_cases h : n = 1 <;> simp [h]
+
+theorem subsetTimeKeep_eq (a x b : Rat) :
+    (Rsa.Gen.C11.subsetTimeKeep a x b == 1) = (decide (a ≤ x) && decide (x ≤ b)) := by
+  unfold Rsa.Gen.C11.subsetTimeKeep
+  by_cases h1 : a ≤ x <;> by_cases h2 : x ≤ b <;> simp [h1, h2]
+
+theorem selectionAvg_eq_selectionOf (col : List β) (iv : Nat) : selectionAvg col iv = selectionOf col iv := by
+  unfold selectionAvg selectionOf
+  simp only [selMatch_eq, avgMatch_eq]
+
+/-- `l[0::2]` and `l[1::2]` -/
+theorem sliceFrom_evens_odds {γ : Type} : ∀ (l : List γ), sliceFrom 0 2 l = evens l ∧ sliceFrom 1 2 l = odds l
+  | [] => by simp [sliceFrom, evens, odds]
+  | [x] => by simp [sliceFrom, evens, odds]
+  | x :: y :: r => by
+    have ih := sliceFrom_evens_odds r
+    simp [sliceFrom, evens, odds, ih.1, ih.2]
+
+theorem oddEven_eq_ref (by_ : String) (d : DS α) : oddEven by_ d = oddEvenRef by_ d := by
+  unfold oddEven oddEvenRef
+  cases splitObs by_ d with
+  | none => rfl
+  | some parts =>
+    have h1 : sliceFrom Rsa.Gen.C11.oddStart Rsa.Gen.C11.oeStep parts = evens parts :=
+      (sliceFrom_evens_odds parts).1
+    have h2 : sliceFrom Rsa.Gen.C11.evenStart Rsa.Gen.C11.oeStep parts = odds parts :=
+      (sliceFrom_evens_odds parts).2
+    simp only [h1, h2]
+
+/-- one distinct value ⇔ every entry equals the first -/
+theorem uniqueFirst_cons_length_one {x0 : β} {xs : List β} :
+    (uniqueFirst (x0 :: xs)).length = 1 ↔ ∀ y ∈ xs, y = x0 := by
+  rw [uniqueFirst, List.length_cons]
+  constructor
+  · intro h y hy
+    have h0 : ((uniqueFirst xs).filter (fun y => y ≠ x0)).length = 0 := by omega
+    have hnil := List.eq_nil_of_length_eq_zero h0
+    by_cases hne : y = x0
+    · exact hne
+    · have : y ∈ (uniqueFirst xs).filter (fun y => y ≠ x0) :=
+        List.mem_filter.2 ⟨mem_uniqueFirst.2 hy, by simpa using hne⟩
+      rw [hnil] at this
+      simp at this
+  · intro h
+    have : (uniqueFirst xs).filter (fun y => y ≠ x0) = [] := by
+      apply List.filter_eq_nil_iff.2
+      intro y hy
+      simp [h y (mem_uniqueFirst.1 hy)]
+    rw [this]
+    rfl
+
+/-- `len({s.descriptors[k] for s in sets}) == 1` ⇔ every set has the first set's value -/
+theorem sameEverywhere_iff {d0 : DS α} {rest : List (DS α)} {k : String} :
+    sameEverywhere (d0 :: rest) k = true ↔ ∀ s ∈ d0 :: rest, s.desc.lookup k = d0.desc.lookup k := by
+  unfold sameEverywhere
+  rw [mergeIsSame_eq]
+  simp only [List.map_cons, beq_iff_eq]
+  rw [uniqueFirst_cons_length_one]
+  simp only [List.mem_map, forall_exists_index, and_imp, forall_apply_eq_imp_iff₂, List.mem_cons,
+    forall_eq_or_imp, true_and]
+
 /-- `np.where(inverse == i_v)` selects exactly the positions holding the `i_v`-th unique value -/
 theorem selectionOf_eq (col : List β) (iv : Nat) (h : iv < (uniqueFirst col).length) :
     selectionOf col iv = indicesWhere (fun x => x == (uniqueFirst col)[iv]) col := by
   unfold selectionOf inverse
+  simp only [selMatch_eq]
   rw [indicesWhere_map]
   apply indicesWhere_congr
   intro x hx
@@ -742,7 +822,7 @@ theorem partCol_length {sets : List (DS α)} {nc nt : Nat}
     have hk : key ∈ sharedKeys (sets.map (·.desc)) := by
       have : key ∈ varyKeys sets := by simpa using hv
       cases sets with
-      | nil => simp [varyKeys] at this
+      | nil => simp [varyKeys, sharedKeys] at this
       | cons d0 rest => exact (List.mem_filter.1 this).1
     obtain ⟨v, hv'⟩ := lookup_of_key_mem (sharedKeys_mem hk s.desc (List.mem_map_of_mem hs))
     simp [hv']
@@ -870,13 +950,13 @@ theorem merge_sound {sets : List (DS α)} {m : DS α} {nc nt : Nat} (hm : merge 
           | some v0 =>
             simp only [hl0, Option.map_some, Option.some.injEq] at hkv
             subst hkv
-            have hall : (s.desc.lookup key == d0.desc.lookup key) = true := by
+            have hall : s.desc.lookup key = d0.desc.lookup key := by
               rw [hsets] at hkey
-              simp only [sameKeys, List.mem_filter, List.all_eq_true] at hkey
-              exact hkey.2 s (by rw [← hsets]; exact hs)
+              simp only [sameKeys, List.mem_filter] at hkey
+              exact (sameEverywhere_iff.1 hkey.2) s (by rw [← hsets]; exact hs)
             have : s.desc.lookup key = some v0 := by
               rw [hl0] at hall
-              simpa using hall
+              exact hall
             exact lookup_mem this
 
 end Rsa.Lemmas.C11
